@@ -63,15 +63,13 @@ structure Pop (σ : Type) where
   tape : σ → Tape Ind
   mask : σ → SelMask
 
-def idEff : Option Ind → List Ind → List Ind := fun _ xs => xs
-
 def greedyPop (cfg : Json) : R (Pop (Option Ind)) := do
   let sel ← natF cfg "sel"
   let init ← optF parseInd cfg "init"
   let c := cfgOf Ind.le Ind.fitEq (fun _ _ => false) 1 sel
   let sc := Greedy.repoShortCircuits
   return { m := greedyM sc c, init := init,
-           spec := ⟨Ind.le, 1, decide (sel ≥ 1), true, if sc then consideredPrefix Ind.le else idEff⟩,
+           spec := greedySpec sc c,
            offered0 := init.toList, tape := fun _ => emptyTape, mask := fun _ => .exact }
 
 def elitismPop (cfg : Json) : R (Pop (ElState Ind)) := do
@@ -80,7 +78,7 @@ def elitismPop (cfg : Json) : R (Pop (ElState Ind)) := do
   let same ← dedupOf (← strF cfg "dedup")
   let c := cfgOf Ind.le Ind.fitEq same cap sel
   return { m := elitismM c, init := ElState.empty,
-           spec := ⟨Ind.le, cap, decide (sel ≥ 1), true, idEff⟩, offered0 := [],
+           spec := elitismSpec c, offered0 := [],
            tape := fun s => ⟨List.replicate (Elitism.selectionSize c s) 0, 1, []⟩, mask := fun _ => .firstCount }
 
 def rosomaxaPop (cfg : Json) : R (Pop (RState Ind)) := do
@@ -89,7 +87,7 @@ def rosomaxaPop (cfg : Json) : R (Pop (RState Ind)) := do
   let c := cfgOf Ind.le Ind.fitEq (Ind.sameRosomaxa 50) cap sel
   let rc : RCfg := ⟨← natF cfg "initial", ← natF cfg "er"⟩
   return { m := rosomaxaM c rc, init := RState.empty,
-           spec := ⟨Ind.le, cap, decide (sel ≥ 1), false, idEff⟩, offered0 := [],
+           spec := rosomaxaSpec c, offered0 := [],
            tape := fun _ => ⟨List.replicate sel 0, 1, []⟩,
            mask := fun s => match s.phase with
              | .initial => .exact
@@ -213,8 +211,21 @@ def runSolve {σ : Type} (p : Pop σ) (j : Json) : R (List (String × Json)) := 
                                    ("best_known_before_each_generation", Json.bool c.1),
                                    ("result_is_best_of_everything_offered", Json.bool resOK)])]
 
+/-- the VRP solver seeded with a feasible initial solution (trace only: nothing for the model to predict);
+    `cmp` = `goal.total_order(result, initial)` computed by the real objective -/
+def runVrp (j : Json) : R (List (String × Json)) := do
+  let implJ ← fld j "impl"
+  match implJ.getObjVal? "cmp" with
+  | .error _ => return [("model", Json.null), ("oracle", Json.mkObj [("trace_complete", Json.bool false)])]
+  | .ok c =>
+    let cmp ← asInt c
+    return [("model", Json.null),
+            ("oracle", Json.mkObj [("trace_complete", Json.bool true),
+                                   ("seeded_result_not_worse_than_initial", Json.bool (decide (cmp ≤ 0)))])]
+
 def handle (j : Json) : R (List (String × Json)) := do
   let k ← strF j "k"
+  if k == "vrp" then return ← runVrp j
   let cfg ← fld j "cfg"
   if k == "greedy" then runPop (← greedyPop cfg) j
   else if k == "elitism" then runPop (← elitismPop cfg) j
